@@ -294,12 +294,12 @@ def has_empty(node):
     return len(node[1]) == 0 or any(has_empty(c) for c in node[1])
 
 
-DATAS = ("x", "a b", "R&D <1> \"q\" 'z'", "é€日")
+DATAS = ("x", "a b", "R&D <1> \"q\" 'z'", "é€日", "R&amp;D <x> Q&A", "&lt;b&gt; & <i>")     # the last two: literal entity text next to raw markup
 
 
 def writer_cases(tier):
     n = 5 if tier == "thorough" else 4
-    return [[t] for t in RR.trees(n, datas=DATAS if tier == "thorough" else DATAS[1:3] + DATAS[3:])]
+    return [[t] for t in RR.trees(n, datas=DATAS if tier == "thorough" else DATAS[1:])]
 
 
 def check_writers(it, fn, a):
